@@ -69,6 +69,27 @@ def run(ctx):
            unk["unknown component"] == 1 and unk["unsupported property"] == 2 and unk["invalid component end"] == 1 and unk["component not closed"] == 1, construct="rejections", detail=str(unk))
     resets = [n for n in cfg.live_nodes() if n.kind == "stmt" and src(n.ast) in ("founddtstart = False", "tzoffsetfrom = None", "tzoffsetto = None", "rrulelines = []", "tzname = None")]
     ctx.ob("C17.MAND", pr, "per-component state is reset at every BEGIN", len(resets) == 5 and all(("name == 'BEGIN'", True) in facts.at(n) for n in resets), construct="BEGIN resets")
+    # per-zone state: whatever must be present at END:VTIMEZONE is cleared at BEGIN:VTIMEZONE (a value left over from
+    # the previous block must not satisfy the check)
+    import re as _re
+    end_raises = [n for n in cfg.live_nodes() if n.kind == "stmt" and isinstance(n.ast, ast.Raise)
+                  and any(tv and t.replace('"', "'") in ("value == 'VTIMEZONE'", "'VTIMEZONE' == value") for t, tv in facts.at(n))
+                  and any(tv and t.replace('"', "'") in ("name == 'END'", "'END' == name") for t, tv in facts.at(n))]
+    need = set()
+    for n in end_raises:
+        for b_, lab in n.pred:
+            if b_.kind == "branch" and lab == "true" and isinstance(b_.ast, ast.UnaryOp) and isinstance(b_.ast.op, ast.Not) and isinstance(b_.ast.operand, ast.Name):
+                need.add(b_.ast.operand.id)         # `if not X: raise`
+            if b_.kind == "branch" and lab == "false" and isinstance(b_.ast, ast.Name):
+                need.add(b_.ast.id)                 # `if X: ... else: raise`
+    need = sorted(need)
+    begin_vtz = [n for n in cfg.live_nodes() if n.kind == "stmt" and isinstance(n.ast, ast.Assign)
+                 and any(tv and t.replace('"', "'") in ("value == 'VTIMEZONE'", "'VTIMEZONE' == value") for t, tv in facts.at(n))
+                 and any(tv and t.replace('"', "'") in ("name == 'BEGIN'", "'BEGIN' == name") for t, tv in facts.at(n))]
+    cleared = set(x.id for n in begin_vtz for t_ in n.ast.targets for x in ast.walk(t_) if isinstance(x, ast.Name))
+    missing_ = [x for x in need if x not in cleared]
+    ctx.ob("C17.MAND", pr, "per-zone state required at END:VTIMEZONE (%s) is reset at every BEGIN:VTIMEZONE" % ", ".join(need), bool(need) and not missing_,
+           construct="BEGIN:VTIMEZONE resets", detail="" if not missing_ else "not reset: %s" % missing_, analysis="must-hold branch facts: required-at-end vs assigned-at-begin")
     rrs = [x for x in walk_local(pr.node) if isinstance(x, ast.Call) and src(x.func) == "rrule.rrulestr"]
     kw = {k.arg: src(k.value) for k in rrs[0].keywords} if rrs else {}
     ctx.ob("C17.MAND", pr, "recurrence lines are parsed with rrulestr(compatible=True, ignoretz=True, cache=True) (DTSTART becomes an occurrence; naive wall times)",
